@@ -127,6 +127,7 @@ Lemma chunk_effect fl st p data mt more :
   d_open (fst (doer_exec fl st c)) = (if more then Some p else None).
 Proof.
   intros c Hok Hn Hopen old. subst c old. cbn [doer_exec] in *.
+  destruct (blocked_at st p); [discriminate|].
   destruct (refuses st p); [discriminate|].
   set (st0 := with_failed st (if more then Some p else None)) in *.
   assert (Ho0 : d_open st0 = d_open st) by reflexivity.
